@@ -122,7 +122,11 @@ func FieldBytes(t *rapid.T, k spec.Kind, bad bool, label string) []byte {
 				c.Y = 2024
 			}
 			dt := spec.CivilDT{Y: c.Y, M: c.M, D: c.D, H: rapid.IntRange(0, 23).Draw(t, label+".h"), Mi: rapid.IntRange(0, 59).Draw(t, label+".mi"), S: rapid.IntRange(0, 59).Draw(t, label+".s")}
-			switch rapid.IntRange(0, 6).Draw(t, label+".bad") {
+			switch rapid.IntRange(0, 7).Draw(t, label+".bad") {
+			case 7: // the out-of-domain times of day closest to the domain: 24:00:00 (the END of a day in HH:mm terms, but no time of
+				// day of a date-time), 23:59:60, 23:60:00
+				x := rapid.SampledFrom([][3]int{{24, 0, 0}, {24, 0, 0}, {23, 59, 60}, {23, 60, 0}, {24, 0, 1}, {24, 1, 0}}).Draw(t, label+".edge")
+				dt.H, dt.Mi, dt.S = x[0], x[1], x[2]
 			case 0:
 				dt.H = rapid.SampledFrom([]int{24, 25, 30, 99}).Draw(t, label+".hh")
 			case 1:
